@@ -75,16 +75,19 @@ class StorageBackend(ABC):
     @staticmethod
     def check_metadata_key(key: str):
         """
-        Raises `ValueError` for a custom metadata key that no storage backend accepts. A key
-        ending in `.with_data` is reserved: next to the entry of a call, that is the name
-        under which a backend records that the value of the key without the suffix is kept
-        beside the data object.
+        Raises `ValueError` for a custom metadata key that no storage backend accepts, because
+        its file would be taken for something else next to the entry of a call:
+
+        * a key ending in `.with_data` has the name under which a backend records that the
+          value of the key without the suffix is kept beside the data object;
+        * a key ending in `.memento.json` has a name that the listing of a function's
+          mementos takes for a memento.
 
         """
-        if key is not None and key.endswith(".with_data"):
+        if key is not None and key.endswith((".with_data", ".memento.json")):
             raise ValueError(
-                "Metadata key '{}' is not allowed: the suffix '.with_data' is "
-                "reserved".format(key)
+                "Metadata key '{}' is not allowed: the suffixes '.with_data' and "
+                "'.memento.json' are reserved".format(key)
             )
 
     def get_memento(self, fn: FunctionReferenceWithArgHash) -> Memento:
